@@ -22,7 +22,7 @@ namespace RegexVerif.Lemmas.StackTypingSound
 open RegexVerif RegexVerif.Code RegexVerif.VM RegexVerif.StackTyping RegexVerif.Lemmas.VM
 open RegexVerif.Lemmas.StackTyping RegexVerif.Lemmas.StackTypingCap
 
-/-- the discipline faults excluded by the typing -/
+/-- the five discipline faults (`Fault.structural = false`), all excluded by the typing -/
 def disc : Fault → Bool
   | .stackUnderflow | .tracktoRange | .textposRange | .crawlUnderflow | .capRange => true
   | _ => false
